@@ -388,6 +388,38 @@ class Scenario:
         p._symx_text = text
         return p
 
+    def begin_registration(self, ctx):
+        """Adopt a RewritingContext created by someone else (PassManager) and hook patch recording."""
+        import gtirb_rewriting.rewriting as RW
+        self.contexts = getattr(self, "contexts", [])
+        self.invocations = 0
+        self.fault_at = getattr(self, "fault_at", None)
+        self.fault_snapshot = None
+        self.original_cfg = self.ir.cfg
+        self.ctx = ctx
+        self.data_patch = {}
+        orig = RW.RewritingContext._invoke_patch
+        scen = self
+
+        def recording(self_, patch, actual_block, actual_offset, context, **kw):
+            res = orig(self_, patch, actual_block, actual_offset, context, **kw)
+            if res is not None:
+                scen.patch_log.append((patch, res))
+            return res
+
+        ctx._invoke_patch = recording.__get__(ctx)
+
+    def register_one(self, ctx, mi, md):
+        if md["op"] == "scope":
+            self._register_scope(ctx, mi, md)
+            return
+        blk = self.blocks[md["blk"]]
+        at = self.boundary(md["blk"], md["at"])
+        if md["op"] == "insert":
+            ctx.insert_at(blk, at, self._patch_arg(mi, md))
+        else:
+            raise KeyError(md["op"])
+
     def register(self, only=None, located=None):
         """Create the RewritingContext and register every modification (or only modification `only`)."""
         import gtirb_rewriting.rewriting as RW
@@ -402,6 +434,9 @@ class Scenario:
         self.data_patch = {}
         for mi, md in enumerate(self.spec.get("mods", [])):
             if md is None or (only is not None and mi != only):
+                continue
+            if md["op"] == "scope":
+                self._register_scope(ctx, mi, md)
                 continue
             if located is not None:
                 blk, at, ln = located
@@ -430,6 +465,37 @@ class Scenario:
             return res
 
         ctx._invoke_patch = recording.__get__(ctx)
+
+    def _register_scope(self, ctx, mi, md):
+        import re
+        from gtirb_rewriting import (ENTRYPOINT_NAME, MAIN_NAME, AllBlocksScope, AllFunctionsScope, BlockPosition,
+                                     FunctionPosition, SingleBlockScope)
+
+        def names(lst):
+            if lst is None:
+                return None
+            out = set()
+            for n in lst:
+                if n == "<main>":
+                    out.add(MAIN_NAME)
+                elif n == "<entry>":
+                    out.add(ENTRYPOINT_NAME)
+                elif n.startswith("re:"):
+                    out.add(re.compile(n[3:]))
+                else:
+                    out.add(n)
+            return out
+
+        pos = BlockPosition[md["pos"]]
+        if md["kind"] == "all_blocks":
+            scope = AllBlocksScope(pos, names(md.get("exclude")))
+        elif md["kind"] == "all_functions":
+            scope = AllFunctionsScope(FunctionPosition[md["fpos"]], pos, names(md.get("functions")))
+        else:
+            scope = SingleBlockScope(self.blocks[md["blk"]], pos)
+        p = self.make_patch(md.get("uid", mi), md["patch"])
+        self.mod_patches[mi] = p
+        ctx.register_insert(scope, p)
 
     def _patch_arg(self, mi, md):
         if md["patch"] == "rawbytes":
